@@ -520,6 +520,8 @@ def run(ck):
         if not run_shard(ck, cases[k:k + shard], k // shard):
             return
     coverage(ck, cases)
+    from checks import promeng          # end to end through the real PromQL engine (a test)
+    promeng.run(ck)
 
 
 def run_shard(ck, cases, idx):
